@@ -45,6 +45,8 @@ TEETH = [  # (base config, rule switched off, what it is in the code)
     ("MC_Production_pos_quick.cfg", "NoPosSync", "validatorsCache.Remove(parent) when SyncPOS reports updates"),
     ("MC_Production_pos_quick.cfg", "NoPosOnline", "noOpCacher when the block switches validators on/off"),
     ("MC_Production_pos_quick.cfg", "NoPosBen", "posCacher.Handle skips the entry on BeneficiarySet"),
+    ("MC_Production_member_quick.cfg", "NoCow", "Candidates.Update clones the shared candidate slice before writing (copy-on-write)"),
+    ("MC_Production_pos_quick.cfg", "NoPosNoWrite", "validateStakingProposer never writes into the (shared) cached leader slice"),
 ]
 VACUITY = [
     ("MC_Production_member_quick.cfg", "X_NeverHit"), ("MC_Production_member_quick.cfg", "X_NeverMemo"),
@@ -234,6 +236,8 @@ def validate(ctx, res, events, label, how, bad_runs, acc):
 
 def drive(ctx, args, label, acc, validate_trace=True):
     how = {"args": args, "seed": ctx.seed}
+    if "-in" in args:       # the behaviours live in a scratch directory: keep them with the artefact
+        how["behaviours"] = json.load(open(args[args.index("-in") + 1]))
     res, events, out = run_driver(ctx, args, label)
     if res is None:
         return None
